@@ -92,6 +92,9 @@ struct ActorSpec {
     /// Loop only: the tool calls the scripted provider asks for, one per response
     #[serde(default)]
     calls: Vec<Kind>,
+    /// Loop only: all calls arrive in ONE provider response (the `for call in tool_calls` loop)
+    #[serde(default)]
+    batch: bool,
 }
 
 #[derive(Clone, Debug, serde::Serialize, serde::Deserialize)]
@@ -240,6 +243,8 @@ struct Run<'a> {
     providers: Vec<rv::provider::ScriptedProvider>,
     /// an actor that got the lock although the hook points say somebody else is still inside its span:
     /// it is driven on alone so that the consequence shows (its frame lands before the owner's)
+    ws_before: BTreeMap<String, Vec<u8>>,
+    changed_by: BTreeMap<(usize, u64), Vec<String>>,
     priority: Option<usize>,
     attempted: std::collections::BTreeSet<String>,
     span_owner: Option<usize>, // actor between `acquired` and its release, by the hook points
@@ -303,7 +308,11 @@ impl<'a> Run<'a> {
         match k {
             Bash | Shell | BashQuick => json!({"command": self.command(i, k.blocking())}),
             Write => json!({"path": self.call_file(i, c), "content": format!("by {i}\n")}),
-            Patch => json!({"patch": format!("*** Begin Patch\n*** Add File: {}\n+by {i}\n*** End Patch\n", self.call_file(i, c))}),
+            Patch => {
+                // add one file, update a second, delete a third (all private to this call)
+                let f = self.call_file(i, c);
+                json!({"patch": format!("*** Begin Patch\n*** Add File: {f}\n+by {i}\n*** Update File: u_{f}\n@@\n-old\n+new by {i}\n*** Delete File: d_{f}\n*** End Patch\n")})
+            }
             Read => json!({"path": "seed.txt"}),
             Ls => json!({"path": "."}),
             Grep => json!({"pattern": "seed", "path": "."}),
@@ -344,14 +353,25 @@ impl<'a> Run<'a> {
             s
         };
         let mut out = vec![];
-        for (c, k) in a.calls.iter().enumerate() {
-            let args = self.tool_args(i, c, *k).to_string();
-            let cid = format!("call_{i}_{c}");
-            out.push(rv::provider::Scripted::sse_text(&sse(&[
-                json!({"type":"response.created","response":{"id":format!("resp_{i}_{c}")}}),
-                json!({"type":"response.output_item.added","output_index":0,"item":{"type":"function_call","call_id":cid,"name":k.tool_name(),"arguments":args}}),
-                json!({"type":"response.output_item.done","output_index":0,"item":{"type":"function_call","call_id":cid,"name":k.tool_name(),"arguments":args}}),
-            ])));
+        if a.batch {
+            let mut lines = vec![json!({"type":"response.created","response":{"id":format!("resp_{i}_all")}})];
+            for (c, k) in a.calls.iter().enumerate() {
+                let args = self.tool_args(i, c, *k).to_string();
+                let cid = format!("call_{i}_{c}");
+                lines.push(json!({"type":"response.output_item.added","output_index":c,"item":{"type":"function_call","call_id":cid,"name":k.tool_name(),"arguments":args}}));
+                lines.push(json!({"type":"response.output_item.done","output_index":c,"item":{"type":"function_call","call_id":cid,"name":k.tool_name(),"arguments":args}}));
+            }
+            out.push(rv::provider::Scripted::sse_text(&sse(&lines)));
+        } else {
+            for (c, k) in a.calls.iter().enumerate() {
+                let args = self.tool_args(i, c, *k).to_string();
+                let cid = format!("call_{i}_{c}");
+                out.push(rv::provider::Scripted::sse_text(&sse(&[
+                    json!({"type":"response.created","response":{"id":format!("resp_{i}_{c}")}}),
+                    json!({"type":"response.output_item.added","output_index":0,"item":{"type":"function_call","call_id":cid,"name":k.tool_name(),"arguments":args}}),
+                    json!({"type":"response.output_item.done","output_index":0,"item":{"type":"function_call","call_id":cid,"name":k.tool_name(),"arguments":args}}),
+                ])));
+            }
         }
         out.push(rv::provider::Scripted::sse_text(&sse(&[
             json!({"type":"response.created","response":{"id":format!("resp_{i}_end")}}),
@@ -417,6 +437,23 @@ impl<'a> Run<'a> {
         }
     }
 
+    /// (relative path -> bytes) of the workspace outside `.rip`
+    fn ws_snapshot(&self) -> BTreeMap<String, Vec<u8>> {
+        let mut m = BTreeMap::new();
+        if let Ok(rd) = std::fs::read_dir(&self.ws) {
+            for e in rd.flatten() {
+                let name = e.file_name().to_string_lossy().to_string();
+                if name == ".rip" {
+                    continue;
+                }
+                if e.file_type().map(|t| t.is_file()).unwrap_or(false) {
+                    m.insert(name, std::fs::read(e.path()).unwrap_or_default());
+                }
+            }
+        }
+        m
+    }
+
     fn frames_of(&self, i: usize) -> usize {
         let evs = self.store.replay_events(&self.thread).unwrap_or_default();
         evs.iter().filter(|e| matches!(&e.kind, EventKind::ContinuityToolSideEffects { run_session_id, .. } if *run_session_id == self.ids[i])).count()
@@ -432,13 +469,18 @@ impl<'a> Run<'a> {
         let mut targets: Vec<(usize, String)> = vec![];
         for i in 0..self.sc.actors.len() {
             let a = &self.sc.actors[i];
-            if matches!(a.kind, Write | Patch) {
-                targets.push((i, self.actor_file(i)));
-            }
-            for (c, k) in a.calls.iter().enumerate() {
+            let mut add = |k: Kind, f: String| {
                 if matches!(k, Write | Patch) {
-                    targets.push((i, self.call_file(i, c)));
+                    targets.push((i, f.clone()));
                 }
+                if k == Patch {
+                    targets.push((i, format!("u_{f}")));
+                    targets.push((i, format!("d_{f}")));
+                }
+            };
+            add(a.kind, self.actor_file(i));
+            for (c, k) in a.calls.iter().enumerate() {
+                add(*k, self.call_file(i, c));
             }
         }
         for (i, name) in targets {
@@ -582,6 +624,22 @@ impl<'a> Run<'a> {
     fn ended(&mut self, i: usize) {
         let c = self.call[i];
         self.push(i, 3, c);
+        // what the call really changed in the workspace (nobody else moved since it was let go)
+        let now = self.ws_snapshot();
+        let mut changed: Vec<String> = vec![];
+        for (k, v) in &now {
+            if self.ws_before.get(k) != Some(v) {
+                changed.push(k.clone());
+            }
+        }
+        for k in self.ws_before.keys() {
+            if !now.contains_key(k) {
+                changed.push(k.clone());
+            }
+        }
+        changed.sort();
+        changed.dedup();
+        self.changed_by.insert((i, c), changed);
         let spec = &self.sc.actors[i];
         if spec.linked && !spec.kind.is_task() && !spec.kind.is_ckpt() {
             self.obs.ends_linked.push((i, c));
@@ -635,6 +693,7 @@ impl<'a> Run<'a> {
             return;
         }
         if p.ends_with(".acquired") {
+            self.ws_before = self.ws_snapshot();
             self.ctl.grant(i);
             self.tool_running = true;
             let st = self.wait_actor(i, LONG, k.blocking());
@@ -800,14 +859,16 @@ impl<'a> Run<'a> {
     }
 
     /// a blocked actor that has the lock although the presumed holder never left its span
-    fn check_blocked_arrivals(&mut self) {
+    fn check_blocked_arrivals(&mut self, moved: usize) {
         let Some(owner) = self.span_owner else { return };
+        // only a step of the owner can have let the permit go
+        let grace = if moved == owner { Duration::from_millis(30) } else { Duration::ZERO };
         for j in 0..self.status.len() {
             if self.status[j] != Status::Blocked || j == owner {
                 continue;
             }
             // give a wrongly released permit a moment to reach the waiter (only when someone waits)
-            let st = self.wait_actor(j, Duration::from_millis(30), false);
+            let st = self.wait_actor(j, grace, false);
             if let Status::Parked(p) = st {
                 self.status[j] = st;
                 if p.ends_with(".acquired") {
@@ -871,6 +932,18 @@ fn run_scenario(rt: &tokio::runtime::Runtime, ctl: &Arc<Ctl>, sc: &Scenario, set
     std::fs::create_dir_all(&ws).unwrap();
     std::fs::create_dir_all(&side).unwrap();
     std::fs::write(ws.join("seed.txt"), "seed\n").unwrap();
+    for (i, a) in sc.actors.iter().enumerate() {
+        let mut mk = |k: Kind, f: String| {
+            if k == Patch {
+                std::fs::write(ws.join(format!("u_{f}")), "old\n").unwrap();
+                std::fs::write(ws.join(format!("d_{f}")), "bye\n").unwrap();
+            }
+        };
+        mk(a.kind, format!("w{i}.txt"));
+        for (c, k) in a.calls.iter().enumerate() {
+            mk(*k, format!("w{i}_{c}.txt"));
+        }
+    }
     std::fs::write(marker_path(&side), "").unwrap();
     let _g = rt.enter();
     let engine = SessionEngine::new(data.clone(), ws.clone(), None).expect("engine");
@@ -893,6 +966,9 @@ fn run_scenario(rt: &tokio::runtime::Runtime, ctl: &Arc<Ctl>, sc: &Scenario, set
     }
     ctl.reset(&sc.actors.iter().map(|a| a.linked).collect::<Vec<_>>());
 
+    let files_seen0: BTreeMap<String, Vec<u8>> = std::fs::read_dir(&ws)
+        .map(|rd| rd.flatten().filter(|e| e.file_type().map(|t| t.is_file()).unwrap_or(false)).map(|e| (e.file_name().to_string_lossy().to_string(), std::fs::read(e.path()).unwrap_or_default())).collect())
+        .unwrap_or_default();
     let mut run = Run {
         sc,
         ctl: ctl.clone(),
@@ -909,8 +985,10 @@ fn run_scenario(rt: &tokio::runtime::Runtime, ctl: &Arc<Ctl>, sc: &Scenario, set
         rewind_id,
         settle,
         obs: Obs { steps: vec![], ends_linked: vec![], violations: vec![], blocked_attempts: 0, ro_overlaps: 0, intrusions: 0 },
-        files_seen: BTreeMap::new(),
+        files_seen: files_seen0,
         providers: vec![],
+        ws_before: BTreeMap::new(),
+        changed_by: BTreeMap::new(),
         priority: None,
         attempted: Default::default(),
         span_owner: None,
@@ -984,7 +1062,7 @@ fn run_scenario(rt: &tokio::runtime::Runtime, ctl: &Arc<Ctl>, sc: &Scenario, set
         };
         gos.push(pick);
         run.go(pick);
-        run.check_blocked_arrivals();
+        run.check_blocked_arrivals(pick);
     }
 
     // whatever happened, let everything finish
@@ -1054,9 +1132,10 @@ fn run_scenario(rt: &tokio::runtime::Runtime, ctl: &Arc<Ctl>, sc: &Scenario, set
                     run.viol("frame-content", format!("frame {j} of actor {a} names tool {tool_name}, the call was {}", k.tool_name()));
                 }
                 if matches!(k, Write | Patch) {
-                    let want = Some(vec![run.call_file(a, c as usize)]);
-                    if *affected_paths != want {
-                        run.viol("frame-content", format!("frame of actor {a} ({k:?}) lists {affected_paths:?}, the call changed {want:?}"));
+                    if let Some(want) = run.changed_by.get(&(a, c)).cloned() {
+                        if affected_paths.clone().unwrap_or_default() != want || want.is_empty() {
+                            run.viol("frame-content", format!("frame of actor {a} call {c} ({k:?}) lists {affected_paths:?}, the workspace diff of the call is {want:?}"));
+                        }
                     }
                 }
             }
@@ -1140,7 +1219,8 @@ fn gen_scenario(r: &mut Rng, thorough: bool) -> Scenario {
         } else {
             vec![]
         };
-        actors.push(ActorSpec { kind, linked, calls });
+        let batch = kind == Loop && r.chance(1, 3);
+        actors.push(ActorSpec { kind, linked, calls, batch });
     }
     // at most three FIFO-blocked shells can be inside the tool runner at once (its own permit count
     // is 4); more than one can only happen after a violation, keep the scenario small anyway
@@ -1148,8 +1228,9 @@ fn gen_scenario(r: &mut Rng, thorough: bool) -> Scenario {
 }
 
 fn corpus() -> Vec<Scenario> {
-    let a = |kind, linked| ActorSpec { kind, linked, calls: vec![] };
-    let lp = |calls: &[Kind], linked| ActorSpec { kind: Loop, linked, calls: calls.to_vec() };
+    let a = |kind, linked| ActorSpec { kind, linked, calls: vec![], batch: false };
+    let lp = |calls: &[Kind], linked| ActorSpec { kind: Loop, linked, calls: calls.to_vec(), batch: false };
+    let lpb = |calls: &[Kind], linked| ActorSpec { kind: Loop, linked, calls: calls.to_vec(), batch: true };
     vec![
         // B goes for the lock while A sits in its command; a reader passes; then in frame order
         Scenario { actors: vec![a(Bash, true), a(Write, true), a(Read, true)], gos: vec![0, 0, 0, 1, 1, 2, 2, 2, 0, 0, 0, 0, 0, 1, 1, 1, 1, 1, 1], seed: 1 },
@@ -1162,6 +1243,8 @@ fn corpus() -> Vec<Scenario> {
         // provider-driven sessions (agent-loop call site) against a blocked shell
         Scenario { actors: vec![lp(&[Write, Read, BashQuick], true), a(Bash, true), lp(&[Ls, Patch], true)], gos: vec![], seed: 6 },
         Scenario { actors: vec![lp(&[Bash, Write], true), lp(&[Write, Grep, Write], true), a(Task, false)], gos: vec![], seed: 7 },
+        // several calls in one provider response
+        Scenario { actors: vec![lpb(&[Write, Ls, BashQuick, Patch], true), a(Bash, true), a(Task, false)], gos: vec![], seed: 8 },
         // readers among themselves and an unknown tool
         Scenario { actors: vec![a(Grep, true), a(Ls, false), a(Fetch, true), a(Unknown, true), a(BashQuick, true)], gos: vec![3, 3, 0, 1, 2, 4, 4, 0, 1, 2, 3, 3, 3, 3, 3], seed: 5 },
     ]
@@ -1188,7 +1271,7 @@ fn main() {
     let a = parse_args();
     let mut res = RunResult::new("C11", &a);
     res.rule = "scenario = 2..6 actors (sessions with tool envelopes bash/shell/write/apply_patch/unknown/read/ls/grep/artifact_fetch, checkpoint create/rewind, pipes/pty tasks; attached to one thread or not) driven in lock step at the ws.* hook points + FIFO-blocked commands; the Go sequence is drawn on line (2:1 in favour of moving somebody else while the lock is held, i.e. overlap attempts); non-trivial = at least one blocked attempt or a read-only call completed while a mutating call was running; distinct by (actors, Go sequence)".into();
-    let n: usize = a.extra.get("n").and_then(|v| v.parse().ok()).unwrap_or(if a.thorough() { 400 } else { 40 });
+    let n: usize = a.extra.get("n").and_then(|v| v.parse().ok()).unwrap_or(if a.thorough() { 500 } else { 50 });
     let settle = Duration::from_millis(a.extra.get("settle-ms").and_then(|v| v.parse().ok()).unwrap_or(250));
     let rt = tokio::runtime::Builder::new_multi_thread().worker_threads(24).enable_all().build().expect("runtime");
     let ctl = Arc::new(Ctl { mu: Mutex::new(CtlInner::default()), cv: Condvar::new() });
@@ -1203,6 +1286,18 @@ fn main() {
         scenarios.push(serde_json::from_value(v).expect("scenario"));
     } else {
         scenarios.extend(corpus());
+        // regression scenarios kept under corpus/C11 (replays that caught seeded mutations)
+        let dir = Path::new(env!("CARGO_MANIFEST_DIR")).join("..").join("corpus").join("C11");
+        let mut files: Vec<PathBuf> = std::fs::read_dir(&dir).map(|rd| rd.flatten().map(|e| e.path()).filter(|p| p.extension().map(|x| x == "json").unwrap_or(false)).collect()).unwrap_or_default();
+        files.sort();
+        for f in files {
+            if let Ok(v) = serde_json::from_str::<Value>(&std::fs::read_to_string(&f).unwrap_or_default()) {
+                let v = v.get("replay").cloned().unwrap_or(v);
+                if let Ok(sc) = serde_json::from_value::<Scenario>(v) {
+                    scenarios.push(sc);
+                }
+            }
+        }
         let mut r = Rng::new(a.seed);
         for _ in 0..n {
             scenarios.push(gen_scenario(&mut r, a.thorough()));
